@@ -239,6 +239,20 @@ def derived_cases(tier, rng):
     for hs, chunks in bodies:
         for q in (b"", b"a=1&a=2&b=%20"):
             yield "derived", ["diff", "derived", "POST", q, hs, ["127.0.0.1", 1234], chunks]
+    # a multipart form with multi-byte text in field values, names and file names, delivered in two pieces cut at every
+    # position (the cut falls inside characters, inside the delimiter, between CR and LF), and bytewise: wsgi.input is read
+    # by the sync helper, the http.request messages by the async one
+    mb = ("--BOUND\r\nContent-Disposition: form-data; name=\"city\"\r\n\r\nZ\u00fcrich \u6771\u4eac\r\n"
+          "--BOUND\r\nContent-Disposition: form-data; name=\"n\u00e9\"; filename=\"r\u00e9sum\u00e9.txt\"\r\n"
+          "Content-Type: text/plain\r\n\r\n\u00e9\r\n--BOUND\r\n"
+          "Content-Disposition: form-data; name=\"e\"\r\n\r\n\U0001f600\r\n--BOUND--\r\n").encode("utf-8")
+    hs = [["Content-Type", "multipart/form-data; boundary=BOUND"]]
+    step = 1 if tier != "quick" else 3
+    for i in range(1, len(mb), step):
+        yield "derived-multipart-cut", ["diff", "derived", "POST", b"", hs, ["127.0.0.1", 1234], [mb[:i], mb[i:]]]
+    for i in (0, 1, 2):
+        yield "derived-multipart-cut", ["diff", "derived", "POST", b"", hs, ["127.0.0.1", 1234],
+                                        [mb[j:j + 1 + i] for j in range(0, len(mb), 1 + i)]]
 
 
 def tree():
